@@ -187,7 +187,8 @@ fn mutate_bytes(base: &str, s: &mut Src) -> String {
 // wild grammar: the whole TypeScript type syntax, supported or not
 // ------------------------------------------------------------------------------------------------
 const NAMES: [&str; 8] = ["A", "B", "C", "G", "I", "E", "Missing", "ns"];
-const VALS: [&str; 6] = ["c1", "c2", "obj", "arr", "fnv", "E"];
+// (values: constants, an enum, and the names the wild imports bind: the default import D and the namespaces ns / ns2)
+const VALS: [&str; 9] = ["c1", "c2", "obj", "arr", "fnv", "E", "D", "ns", "ns2"];
 
 fn wild_ty(s: &mut Src, depth: usize) -> String {
     if depth == 0 {
@@ -221,7 +222,7 @@ fn wild_ty(s: &mut Src, depth: usize) -> String {
             16 => s.pick(&NAMES).to_string(),
             17 => format!("typeof {}", s.pick(&VALS)),
             18 => format!("typeof {}.{}", s.pick(&VALS), s.pick(&["k", "a", "length", "M", "x"])),
-            19 => format!("{}.{}", s.pick(&["E", "ns", "A", "obj"]), s.pick(&["M", "X", "a", "T"])),
+            19 => format!("{}.{}", s.pick(&["E", "ns", "A", "obj", "D", "ns2", "ns.ns2", "D.ns"]), s.pick(&["M", "X", "a", "T", "A", "B", "c1", "E"])),
             20 => "Date".into(),
             21 => s.pick(&["Uint8Array", "Float64Array", "BigInt64Array"]).to_string(),
             22 => format!("StringFormat<{}>", s.pick(&["\"lower\"", "\"nope\"", "string", "1"])),
@@ -306,7 +307,7 @@ fn wild_expr(s: &mut Src, depth: usize) -> String {
 
 fn wild_decl(s: &mut Src, name: &str) -> String {
     let exp = *s.pick(&["", "export ", "export ", "export default ", "declare ", "export declare "]);
-    match s.below(14) {
+    match s.below(15) {
         0..=3 => {
             let params = *s.pick(&["", "<T>", "<T, U>", "<T extends string>", "<T = string>"]);
             let d = s.range(0, 3);
@@ -331,6 +332,15 @@ fn wild_decl(s: &mut Src, name: &str) -> String {
         10 => format!("export namespace ns {{ export type T = {}; export const v = 1; }}", wild_ty(s, 1)),
         11 => format!("{}class {} {{ a: string = \"\"; }}", exp.replace("declare ", ""), name),
         12 => format!("export default {};", s.pick(&["A", "c1", "{ a: 1 }", "1", "E"])),
+        13 => {
+            // export lists of local names: a type, a value or an enum under its own name, another one, or `default`
+            let what = *s.pick(&["A", "B", "I", "E", "c1", "obj", "fnv", "ns", "Missing"]);
+            match s.below(3) {
+                0 => format!("export {{ {} as default }};", what),
+                1 => format!("export {{ {} as {} }};", what, s.pick(&["A", "Z", "c1", "D"])),
+                _ => format!("export {{ {} }};", what),
+            }
+        }
         _ => format!("{}function {}() {{ return 1; }}", exp.replace("declare ", ""), s.pick(&["fnv", "f2"])),
     }
 }
@@ -449,6 +459,76 @@ fn cross_module_values(s: &mut Src) -> Vec<(String, String)> {
     let ps: Vec<String> = (0..n).map(|i| format!("P{}: {}", i, s.pick(&reads))).collect();
     entry.push_str(&format!("parse.buildParsers<{{ {} }}>();\n", ps.join("; ")));
     vec![("entry.ts".to_string(), entry), ("e.ts".to_string(), lib)]
+}
+
+/// every kind of declaration (type, interface, constant, enum, function) exported under every export form (own name,
+/// renamed, as default through a list, `export default`, `export *`, `export * as` - also of the file itself), and every
+/// binding an importer can make of them read in every position: as a type, as a qualified type, through typeof, through
+/// typeof of a member.  Most combinations are errors; none may crash.
+fn export_kinds_by_use_positions(s: &mut Src) -> Vec<(String, String)> {
+    const DECLS: [(&str, &str); 6] = [
+        ("A", "type A = { a: string };"),
+        ("I", "interface I { a: number }"),
+        ("c1", "const c1 = { a: 1, A: 2 } as const;"),
+        ("E", "enum E { M = \"m\", N = 1 }"),
+        ("fnv", "function fnv() { return 1; }"),
+        ("G", "type G<T> = { g: T };"),
+    ];
+    let mut a = String::new();
+    for (_, d) in DECLS.iter() {
+        if s.chance(5, 6) {
+            a.push_str(d);
+            a.push('\n');
+        }
+    }
+    let names = ["A", "I", "c1", "E", "fnv", "G", "Missing"];
+    for _ in 0..s.range(1, 4) {
+        let x = *s.pick(&names);
+        a.push_str(&match s.below(9) {
+            0 => format!("export {{ {} as default }};\n", x),
+            1 => format!("export default {};\n", x),
+            2 => format!("export {{ {} }};\n", x),
+            3 => format!("export {{ {} as {} }};\n", x, s.pick(&["Y", "A", "c1", "default"])),
+            4 => "export * as self from \"./a\";\n".to_string(),
+            5 => "export * as nsb from \"./b\";\n".to_string(),
+            6 => "export * from \"./b\";\n".to_string(),
+            7 => format!("export {{ {} as {} }} from \"./b\";\n", s.pick(&["default", "A", "c1", "Y"]), s.pick(&["default", "Y", "Z"])),
+            _ => "export * from \"./a\";\n".to_string(),
+        });
+    }
+    let mut b = String::new();
+    b.push_str("export type A = { b: string };\nexport const c1 = { b: 1 } as const;\n");
+    for _ in 0..s.range(0, 2) {
+        b.push_str(&match s.below(5) {
+            0 => "export * from \"./a\";\n".to_string(),
+            1 => "export * as nsa from \"./a\";\n".to_string(),
+            2 => format!("export default {};\n", s.pick(&["A", "c1", "1"])),
+            3 => format!("export {{ {} as default }};\n", s.pick(&["A", "c1"])),
+            _ => "export { default } from \"./a\";\n".to_string(),
+        });
+    }
+    let mut entry = String::new();
+    entry.push_str(*s.pick(&["import D from \"./a\";\n", "import { default as D } from \"./a\";\n", "import D from \"./b\";\n"]));
+    entry.push_str(*s.pick(&["import * as ns from \"./a\";\n", "import * as ns from \"./b\";\n"]));
+    entry.push_str("import { Y, Z } from \"./a\";\n");
+    let heads = ["D", "ns", "ns.self", "ns.self.self", "ns.nsb", "ns.nsa", "ns.nsb.nsa", "Y", "Z", "ns.D", "ns.default"];
+    let tails = ["", ".A", ".a", ".c1", ".E", ".E.M", ".I", ".G", ".default", ".Y"];
+    let n = s.range(1, 4);
+    let ps: Vec<String> = (0..n)
+        .map(|i| {
+            let h = *s.pick(&heads);
+            let t = *s.pick(&tails);
+            let use_ = match s.below(5) {
+                0 | 1 => format!("typeof {}{}", h, t),
+                2 => format!("{}{}", h, t),
+                3 => format!("{}{}<string>", h, t),
+                _ => format!("keyof typeof {}{}", h, t),
+            };
+            format!("P{}: {}", i, use_)
+        })
+        .collect();
+    entry.push_str(&format!("parse.buildParsers<{{ {} }}>();\n", ps.join("; ")));
+    vec![("entry.ts".to_string(), entry), ("a.ts".to_string(), a), ("b.ts".to_string(), b)]
 }
 
 /// the same type name declared in several files of a directory grid (a/x.ts, a/y.ts, b/x.ts, b/y.ts), generic or not,
@@ -689,7 +769,7 @@ impl C04 {
             1 => vec!["int".into()],
             _ => crate::den::NUMBER_FORMATS.iter().map(|x| x.to_string()).chain(["age".to_string()]).collect(),
         };
-        let kind = s.weighted(&[4, 4, 2, 3, 1, 4, 2, 1]);
+        let kind = s.weighted(&[4, 4, 2, 3, 1, 4, 2, 1, 3]);
         let (files, kind_name): (Vec<(String, String)>, &str) = match kind {
             0 => (vec![("entry.ts".to_string(), wild_file(s, &["a", "b", "missing"], true))], "wild_single"),
             1 if !corp.is_empty() => {
@@ -713,6 +793,7 @@ impl C04 {
             5 => (vec![("entry.ts".to_string(), sem_file(s))], "semantic_operators"),
             6 => (cross_module_values(s), "cross_module_values"),
             7 => (same_name_in_directories(s), "same_name_in_directories"),
+            8 => (export_kinds_by_use_positions(s), "export_kinds_by_use_positions"),
             _ => {
                 let txt = if corp.is_empty() { String::new() } else { corp[s.below(corp.len())].clone() };
                 (vec![("entry.ts".to_string(), txt)], "corpus_verbatim")
